@@ -144,7 +144,7 @@ Section C09.
     let '(s, rows, crashed) := run_calls (w_init) 0 calls in
     if crashed then rows ++ [[8]] else
     if w_final s then rows ++ observe_body (w_out s) else
-    let s1 := fold_left (fun st id => fst (wstep' st (OEnd id))) [0; 1; 2; 3; 4; 5; 6; 7] s in
+    let s1 := fold_left (fun st id => fst (wstep' st (OEnd id))) (map N.of_nat (seq 0 64)) s in
     match wstep' s1 OFinalize with
     | (s2, Ok _) => rows ++ observe_body (w_out s2)
     | (s2, r) => rows ++ [res_row r true] ++ [[8]]
